@@ -7,7 +7,7 @@ import z3
 from .sym import (IV, BV, Agg, En, Ref, Opaque, StrLit, StrSel, Closure, UNIT, T, F, mk_int, mk_bool, bv_of, zand, zor, znot,
                   ty_range, Inconclusive, INT_TYPES, ite_iv, merge)
 from . import oblig, models
-from .models import call_closure, en2, cell
+from .models import in_ranges, call_closure, en2, cell
 
 class StrV:
     is_strlike = True
@@ -27,6 +27,70 @@ class CharsV:
             st = s.s.merge_with(c, other.s)
             return CharsV(st, ite_iv(c, s.pos, other.pos))
         return None
+class SliceIterV:
+    """std::slice::Iter<u8> over a bounded byte string"""
+    __slots__ = ('s', 'pos')
+    def __init__(s, st, pos): s.s = st; s.pos = pos
+    def merge_with(s, c, other):
+        if isinstance(other, SliceIterV) and other.s.buf is s.s.buf:
+            st = s.s.merge_with(c, other.s)
+            return SliceIterV(st, ite_iv(c, s.pos, other.pos))
+        return None
+class ChunksV:
+    __slots__ = ('s', 'n', 'pos')
+    def __init__(s, st, n, pos): s.s = st; s.n = n; s.pos = pos
+class ZipV:
+    __slots__ = ('a', 'b')
+    def __init__(s, a, b): s.a = a; s.b = b
+class VecV:
+    """Vec<T> (and a slice of all of it): `items` up to the largest length reached, `n` the length (symbolic after pushes under
+    symbolic control flow: items at positions >= n are stale)"""
+    __slots__ = ('items', 'n')
+    def __init__(s, items, n=None):
+        s.items = list(items); s.n = n if n is not None else mk_int(len(s.items), 'usize')
+    def length(s): return s.n
+    def clen(s): return s.n.const()
+    def merge_with(s, c, other):
+        if not isinstance(other, VecV): return None
+        if c.c is True: return s
+        if c.c is False: return other
+        items = []
+        for k in range(max(len(s.items), len(other.items))):
+            if k < len(s.items) and k < len(other.items): items.append(merge(c, s.items[k], other.items[k]))
+            else: items.append(s.items[k] if k < len(s.items) else other.items[k])
+        a, b = s.n, other.n
+        if a.const() is not None and a.const() == b.const(): n = a
+        else: n = IV(z3.If(c.t, a.t, b.t), 'usize', min(a.lo, b.lo), max(a.hi, b.hi))
+        return VecV(items, n)
+    def pushed(s, x):
+        k0 = s.clen()
+        if k0 is not None: return VecV(s.items[:k0] + [x], mk_int(k0 + 1, 'usize'))
+        items = list(s.items)
+        for k in range(max(s.n.lo, 0), min(s.n.hi, len(items)) + 1):
+            if k < len(items): items[k] = merge(bv_of(s.n.t == k), x, items[k])
+            else: items.append(x)
+        return VecV(items, IV(s.n.t + 1, 'usize', s.n.lo + 1, s.n.hi + 1))
+    def as_array(s):
+        k = s.clen()
+        return Agg(s.items[:k], 'array') if k is not None else s
+    def at(s, ctx, i, guard, site):
+        """element i with the bounds check; returns (value or None, ok-guard)"""
+        lo = max(s.n.lo, 0); hi = min(s.n.hi, len(s.items))
+        okc = zand(i.t >= 0, i.t < s.n.t)
+        safe = i.lo >= 0 and i.hi < lo
+        if not safe: ctx.panics.append((zand(guard, znot(okc)), site, 'index out of bounds'))
+        if hi == 0: return None, F
+        ks = [k for k in range(hi) if i.lo <= k <= i.hi] or [0]
+        val = s.items[ks[-1]]
+        for k in reversed(ks[:-1]): val = merge(bv_of(i.t == k), s.items[k], val)
+        return val, (T if safe else okc)
+class VecIterV:
+    """slice::Iter (or its Rev) over a Vec of symbolic length: k elements consumed so far"""
+    __slots__ = ('v', 'k', 'rev')
+    def __init__(s, v, k, rev): s.v = v; s.k = k; s.rev = rev
+    def merge_with(s, c, other):
+        if isinstance(other, VecIterV) and other.v is s.v and other.rev == s.rev: return VecIterV(s.v, merge(c, s.k, other.k), s.rev)
+        return None
 class TakeWhileV:
     __slots__ = ('ch', 'clo')
     def __init__(s, ch, clo): s.ch = ch; s.clo = clo
@@ -37,6 +101,17 @@ def add_iv(a, b, ty='usize'):
 def sub_iv(a, b, ty='usize'):
     if a.const() is not None and b.const() is not None: return mk_int(a.const() - b.const(), ty)
     return IV(a.t - b.t, ty, a.lo - b.hi, a.hi - b.lo)
+
+def ieq(a, b):
+    """a == b as a z3 Boolean, decided from the intervals where possible (b: IV or int)"""
+    if isinstance(b, int): b = mk_int(b, 'u8')
+    if a.hi < b.lo or a.lo > b.hi: return F
+    if a.const() is not None and a.const() == b.const(): return T
+    return a.t == b.t
+def ige(a, k):
+    if a.lo >= k: return T
+    if a.hi < k: return F
+    return a.t >= k
 
 def as_str(ex, v):
     v = ex.deref(v)
@@ -76,35 +151,53 @@ def char_at(st, idx):
     return IV(z3.If(b0.t < 128, b0.t, (b0.t - 192) * 64 + (b1.t - 128)), 'char', 0, 0x7FF)
 
 def parse_int(ex, st, ty):
-    """<int>::from_str: optional '+' (and '-' for signed), at least one digit, overflow -> Err"""
+    """<int>::from_str: optional '+' (and '-' for signed), at least one digit, overflow -> Err.
+    Conditions the byte intervals decide are decided here; the value carries the interval its digits allow (0 where the parse fails)."""
     signed = INT_TYPES[ty][1] == 1; tlo, thi = ty_range(ty)
     lo = max(st.len.lo, 0); hi = min(st.len.hi, len(st.buf))
-    res_ok = None; res_val = None
+    DIG = [(48, 57)]
+    cases = []          # (k, ok-term, value-term, vlo, vhi)
     for k in range(hi, lo - 1, -1):
-        if k == 0: okk = F; valk = z3.IntVal(0)
-        else:
-            bs = [byte_at(st, mk_int(i, 'usize')) for i in range(k)]
-            isd = [z3.And(b.t >= 48, b.t <= 57) for b in bs]
-            def num(js):
-                t = z3.IntVal(0)
-                for j in js: t = t * 10 + (bs[j].t - 48)
-                return t
-            plain_ok = z3.And(*isd); plain_val = num(range(k))
-            if k > 1:
-                plus = bs[0].t == 43; minus = (bs[0].t == 45) if signed else F
-                rest_ok = z3.And(*isd[1:]); rest_val = num(range(1, k))
-                okk = z3.Or(plain_ok, z3.And(z3.Or(plus, minus), rest_ok))
-                valk = z3.If(plain_ok, plain_val, z3.If(minus, -rest_val, rest_val))
-            else: okk = plain_ok; valk = plain_val
-            okk = z3.And(okk, valk >= tlo, valk <= thi)
-        if res_ok is None: res_ok, res_val = okk, valk
-        else:
-            c = st.len.t == k
-            res_ok = z3.If(c, okk, res_ok); res_val = z3.If(c, valk, res_val)
-    if res_ok is None: res_ok = F; res_val = z3.IntVal(0)
-    ok = bv_of(z3.simplify(res_ok)) if z3.is_bool(res_ok) else bv_of(res_ok)
+        if k == 0: cases.append((0, F, z3.IntVal(0), 0, 0)); continue
+        bs = [byte_at(st, mk_int(i, 'usize')) for i in range(k)]
+        isd = []
+        for b in bs:
+            r = in_ranges(b, DIG)
+            isd.append(T if r.c is True else F if r.c is False else r.t)
+        def num(js):
+            t = z3.IntVal(0); l = h = 0
+            for j in js:
+                t = t * 10 + (bs[j].t - 48)
+                l = l * 10 + min(max(bs[j].lo - 48, 0), 9); h = h * 10 + min(max(bs[j].hi - 48, 0), 9)
+            return t, l, h
+        plain_ok = zand(*isd); pv, pl, ph = num(range(k))
+        alts = []       # (condition, value, lo, hi)
+        if not z3.is_false(plain_ok): alts.append((plain_ok, pv, pl, ph))
+        if k > 1:
+            rest_ok = zand(*isd[1:]); rv, rl, rh = num(range(1, k))
+            plus = ieq(bs[0], 43); minus = ieq(bs[0], 45) if signed else F
+            cp = zand(plus, rest_ok); cm = zand(minus, rest_ok)
+            if not z3.is_false(cp): alts.append((cp, rv, rl, rh))
+            if not z3.is_false(cm): alts.append((cm, -rv, -rh, -rl))
+        oks = []; valk = z3.IntVal(0); vlo = vhi = 0
+        for cnd, v, l, h in reversed(alts):
+            inr = T if (l >= tlo and h <= thi) else F if (h < tlo or l > thi) else z3.And(v >= tlo, v <= thi)
+            c2 = zand(cnd, inr)
+            if z3.is_false(c2): continue
+            oks.append(c2); valk = v if z3.is_true(c2) else z3.If(c2, v, valk)
+            vlo = min(vlo, max(l, tlo)); vhi = max(vhi, min(h, thi))
+            if z3.is_true(c2): vlo, vhi = max(l, tlo), min(h, thi)
+        cases.append((k, zor(*oks), valk, vlo, vhi))
+    if not cases: cases = [(0, F, z3.IntVal(0), 0, 0)]
+    res_ok, res_val = cases[0][1], cases[0][2]
+    for k, okk, valk, _, _ in cases[1:]:
+        c = st.len.t == k
+        res_ok = z3.If(c, okk, res_ok); res_val = z3.If(c, valk, res_val)
+    vlo = min(c[3] for c in cases); vhi = max(c[4] for c in cases)
+    if len(cases) == 1: ok = bv_of(res_ok)
+    else: ok = bv_of(z3.simplify(res_ok))
     notok = mk_bool(not ok.c) if ok.c is not None else BV(z3.Not(ok.t))
-    return en2(notok, [IV(res_val, ty, tlo, thi)], [Opaque('ParseIntError')], 'Result')
+    return en2(notok, [IV(res_val, ty, min(vlo, 0), max(vhi, 0))], [Opaque('ParseIntError')], 'Result')
 
 def call_pred(ex, clo, ch, guard, by_ref):
     arg = cell(ex, ch) if by_ref else ch
@@ -153,6 +246,11 @@ def string_model(ex, c, args, guard, site):
         if not z3.is_true(okc): ctx.panics.append((zand(guard, znot(okc)), site, 'byte slice index out of range'))
         return StrV(st.buf, add_iv(st.start, a), IV(b.t - a.t, 'usize', max(0, b.lo - a.hi), max(0, b.hi - a.lo))), okc
     m = re.match(r'^core::str::<impl str>::parse::<(\w+)>$', c)
+    if m and m.group(1) not in INT_TYPES and getattr(ex, 'generic_stack', None):
+        # generic callee body (MIR is polymorphic): the type parameter comes from the innermost call that named concrete generics
+        for gs in reversed(ex.generic_stack):
+            if gs and gs[0] in INT_TYPES:
+                m = re.match(r'^(\w+)$', gs[0]); break
     if m and m.group(1) in INT_TYPES:
         v = ex.deref(args[0])
         if not isinstance(v, (StrV, StrLit)): return None
@@ -241,15 +339,87 @@ def string_model(ex, c, args, guard, site):
             if pat.hi >= 128: raise Inconclusive('starts_with(non-ASCII char)')
             if cs.endswith('starts_with'):
                 b = byte_at(st, mk_int(0, 'usize'))
-                return bv_of(zand(st.len.t > 0, b.t == pat.t)), T
+                return bv_of(zand(ige(st.len, 1), ieq(b, pat))), T
             b = byte_at(st, sub_iv(st.len, mk_int(1, 'usize')))
-            return bv_of(zand(st.len.t > 0, b.t == pat.t)), T
+            return bv_of(zand(ige(st.len, 1), ieq(b, pat))), T
         if isinstance(pat, StrLit):
             k = len(pat.b)
             if cs.endswith('starts_with'):
-                return bv_of(zand(st.len.t >= k, *[byte_at(st, mk_int(i, 'usize')).t == pat.b[i] for i in range(k)])), T
-            return bv_of(zand(st.len.t >= k, *[byte_at(st, IV(st.len.t - k + i, 'usize', st.len.lo - k + i, st.len.hi - k + i)).t == pat.b[i] for i in range(k)])), T
+                return bv_of(zand(ige(st.len, k), *[ieq(byte_at(st, mk_int(i, 'usize')), pat.b[i]) for i in range(k)])), T
+            return bv_of(zand(ige(st.len, k), *[ieq(byte_at(st, IV(st.len.t - k + i, 'usize', st.len.lo - k + i, st.len.hi - k + i)), pat.b[i]) for i in range(k)])), T
         return None
+    r_ = bytes_model(ex, c, cs, args, guard, site)
+    if r_ is not None: return r_
+    if cs in ('from_utf8', 'std::str::from_utf8', 'core::str::from_utf8', 'core::str::converts::from_utf8'):
+        v = ex.deref(args[0])
+        if not isinstance(v, (StrV, StrLit)): return None
+        st = as_str(ex, v)
+        mx = max(0, min(st.len.hi, len(st.buf)))
+        lo_pos = st.start.lo; hi_pos = min(st.start.hi + mx, len(st.buf))
+        if any(b.hi >= 128 for b in st.buf[max(lo_pos, 0):hi_pos]):
+            # class-fixed bytes at concrete positions: ASCII, 2-byte lead [C2,DF] + continuation [80,BF]; anything else is outside the model
+            if st.start.const() is None or st.len.const() is None: raise Inconclusive('from_utf8 on bytes that may be non-ASCII at symbolic positions')
+            bs = st.buf[st.start.const():st.start.const() + st.len.const()]
+            i = 0; valid = True
+            while i < len(bs):
+                b = bs[i]
+                if b.hi < 128: i += 1; continue
+                if 0xC2 <= b.lo and b.hi <= 0xDF:
+                    if i + 1 < len(bs) and 0x80 <= bs[i + 1].lo and bs[i + 1].hi <= 0xBF: i += 2; continue
+                    if i + 1 >= len(bs) or bs[i + 1].hi < 0x80 or bs[i + 1].lo > 0xBF: valid = False; break
+                    raise Inconclusive('from_utf8: byte after a 2-byte lead is not class-fixed')
+                if (0x80 <= b.lo and b.hi <= 0xBF) or (0xC0 <= b.lo and b.hi <= 0xC1) or b.lo >= 0xF5: valid = False; break
+                raise Inconclusive('from_utf8 on bytes outside the modelled classes (ASCII, 2-byte sequences, lone continuation bytes)')
+            ctx.models_used.add('str::from_utf8 on class-fixed bytes (ASCII / 2-byte sequences valid, lone continuation or lead bytes invalid)')
+            return En(mk_int(0 if valid else 1, 'isize'), {0: [st], 1: [Opaque('Utf8Error')]}, 'Result'), T
+        ctx.models_used.add('str::from_utf8 on ASCII bytes (always Ok)')
+        return En(mk_int(0, 'isize'), {0: [st], 1: [Opaque('Utf8Error')]}, 'Result'), T
+    if cs == 'core::str::<impl str>::trim_matches' or cs in ('core::str::<impl str>::trim', 'core::str::<impl str>::trim_start_matches', 'core::str::<impl str>::trim_end_matches'):
+        v = ex.deref(args[0])
+        if not isinstance(v, (StrV, StrLit)): return None
+        st = as_str(ex, v)
+        mx = max(0, min(st.len.hi, len(st.buf)))
+        def pred(i_iv):
+            b = byte_at(st, i_iv)
+            ch = IV(b.t, 'char', max(b.lo, 0), min(b.hi, 127))
+            if cs.endswith('::trim'): return in_ranges(ch, [(9, 13), (32, 32)])
+            pat = ex.deref(args[1])
+            if isinstance(pat, IV): return ex.cmp_iv('Eq', ch, IV(pat.t, 'char', pat.lo, pat.hi))
+            return call_pred(ex, pat, ch, guard, False)
+        def count(idx_of, limit_ok):
+            """number of consecutive matching positions idx_of(0), idx_of(1), ..: a concrete prefix, then a symbolic remainder"""
+            nc = 0; symb = False; run = T; t = z3.IntVal(0); ns = 0
+            for j in range(mx):
+                inl = limit_ok(j)
+                if inl.c is False: break
+                p = pred(idx_of(j))
+                cond = ex.binop('BitAnd', inl, p)
+                if not symb and cond.c is True: nc += 1; continue
+                if not symb and cond.c is False: break
+                symb = True
+                run = zand(run, cond.t); t = t + z3.If(run, 1, 0); ns += 1
+            if not symb: return mk_int(nc, 'usize')
+            return IV(nc + t, 'usize', nc, nc + ns)
+        # lead = number of leading matching bytes; trail = number of trailing matching bytes of the rest
+        lead = count(lambda j: mk_int(j, 'usize'), lambda j: ex.cmp_iv('Lt', mk_int(j, 'usize'), st.len))
+        if cs.endswith('trim_end_matches'): lead = mk_int(0, 'usize')
+        rest = sub_iv(st.len, lead)
+        trail = count(lambda j: sub_iv(st.len, mk_int(1 + j, 'usize')), lambda j: ex.cmp_iv('Lt', mk_int(j, 'usize'), rest))
+        if cs.endswith('trim_start_matches'): trail = mk_int(0, 'usize')
+        ctx.models_used.add('str::trim_matches/trim (ASCII)')
+        return StrV(st.buf, add_iv(st.start, lead), sub_iv(rest, trail)), T
+    if cs == 'core::str::<impl str>::contains':
+        v = ex.deref(args[0]); pat = ex.deref(args[1])
+        if not isinstance(v, (StrV, StrLit)) or not isinstance(pat, IV): return None
+        st = as_str(ex, v)
+        mx = max(0, min(st.len.hi, len(st.buf)))
+        return bv_of(zor(*[zand(ige(st.len, j + 1), ieq(byte_at(st, mk_int(j, 'usize')), pat)) for j in range(mx)])), T
+    m = re.match(r'^core::num::<impl u8>::(is_ascii_alphabetic|is_ascii_digit|is_ascii_whitespace|is_ascii_alphanumeric|is_ascii_uppercase|is_ascii_lowercase|is_ascii)$', cs)
+    if m:
+        a = ex.deref(args[0]); fn = m.group(1)
+        rng = {'is_ascii_digit': [(48, 57)], 'is_ascii': [(0, 127)], 'is_ascii_alphabetic': [(65, 90), (97, 122)], 'is_ascii_uppercase': [(65, 90)], 'is_ascii_lowercase': [(97, 122)],
+               'is_ascii_alphanumeric': [(48, 57), (65, 90), (97, 122)], 'is_ascii_whitespace': [(9, 10), (12, 13), (32, 32)]}[fn]
+        return in_ranges(a, rng), T
     if cs in ('core::str::<impl str>::is_ascii', 'core::slice::ascii::<impl [u8]>::is_ascii', 'core::slice::<impl [u8]>::is_ascii'):
         v = ex.deref(args[0])
         if not isinstance(v, (StrV, StrLit)): return None
@@ -271,6 +441,227 @@ def string_model(ex, c, args, guard, site):
         return bv_of(zand(i.t <= st.len.t, boundary(st, i))), T
     return None
 
+def opt(bv, payload):
+    return en2(bv, [], payload, 'Option')
+
+def bytes_model(ex, c, cs, args, guard, site):
+    ctx = ex.ctx
+    def strv(x):
+        v = ex.deref(x)
+        return as_str(ex, v) if isinstance(v, (StrV, StrLit)) else None
+    if cs == 'core::slice::<impl [u8]>::split_at':
+        st = strv(args[0]); mid = args[1]
+        if st is None: return None
+        okc = mid.t <= st.len.t
+        if not z3.is_true(z3.simplify(okc)): ctx.panics.append((zand(guard, znot(okc)), site, 'split_at: mid > len'))
+        a = StrV(st.buf, st.start, IV(mid.t, 'usize', max(mid.lo, 0), min(mid.hi, st.len.hi)))
+        b = StrV(st.buf, add_iv(st.start, mid), IV(st.len.t - mid.t, 'usize', max(0, st.len.lo - mid.hi), max(0, st.len.hi - mid.lo)))
+        return Agg([a, b]), okc
+    if cs in ('core::slice::<impl [u8]>::is_empty',):
+        st = strv(args[0])
+        if st is None: return None
+        return ex.cmp_iv('Eq', st.len, mk_int(0, 'usize')), T
+    if cs in ('core::slice::<impl [u8]>::first', 'core::slice::<impl [u8]>::last'):
+        st = strv(args[0])
+        if st is None: return None
+        idx = mk_int(0, 'usize') if cs.endswith('first') else sub_iv(st.len, mk_int(1, 'usize'))
+        return opt(ex.cmp_iv('Gt', st.len, mk_int(0, 'usize')), [cell(ex, byte_at(st, idx))]), T
+    if cs == 'core::slice::<impl [u8]>::iter' or re.match(r'^<&\[u8\] as IntoIterator>::into_iter$', cs):
+        st = strv(args[0])
+        if st is None: return None
+        return SliceIterV(st, mk_int(0, 'usize')), T
+    if re.match(r"^<std::slice::Iter<'_, u8> as IntoIterator>::into_iter$", cs):
+        v = ex.deref(args[0])
+        if isinstance(v, SliceIterV): return v, T
+        return None
+    if re.match(r"^<std::slice::Iter<'_, u8> as Iterator>::next$", cs):
+        r = args[0]; it = ex.deref(r)
+        if not isinstance(it, SliceIterV): return None
+        has = ex.cmp_iv('Lt', it.pos, it.s.len)
+        b = byte_at(it.s, it.pos)
+        newpos = IV(z3.If(has.t, it.pos.t + 1, it.pos.t), 'usize', it.pos.lo, min(it.pos.hi + 1, len(it.s.buf))) if has.c is None else (add_iv(it.pos, mk_int(1, 'usize')) if has.c else it.pos)
+        ex.write_ref(r, [], SliceIterV(it.s, newpos))
+        return opt(has, [cell(ex, b)]), T
+    if re.match(r"^<std::slice::Iter<'_, u8> as Iterator>::(any|all)$", cs):
+        r = args[0]; it = ex.deref(r)
+        if not isinstance(it, SliceIterV): return None
+        is_all = cs.endswith('all')
+        mx = max(0, min(it.s.len.hi, len(it.s.buf)))
+        acc = []
+        for j in range(mx):
+            idx = add_iv(it.pos, mk_int(j, 'usize'))
+            v, rg2 = call_closure(ex, args[1], [cell(ex, byte_at(it.s, idx))], guard)
+            inside = idx.t < it.s.len.t
+            acc.append(z3.Implies(inside, v.t) if is_all else zand(inside, v.t))
+        ex.write_ref(r, [], SliceIterV(it.s, it.s.len))
+        return bv_of(zand(*acc) if is_all else zor(*acc)), T
+    m = re.match(r'^<&?\[u8\] as PartialEq<&?\[u8(?:; \d+)?\]>>::(eq|ne)$', cs) or re.match(r'^<&?\[u8(?:; \d+)?\] as PartialEq<&?\[u8(?:; \d+)?\]>>::(eq|ne)$', cs) or re.match(r'^<&?\[u8\] as PartialEq>::(eq|ne)$', cs)
+    if m:
+        def view(x):
+            v = ex.deref(x)
+            if isinstance(v, (StrV, StrLit)): st = as_str(ex, v); return st.len, lambda i: byte_at(st, mk_int(i, 'usize')), min(st.len.hi, len(st.buf))
+            if isinstance(v, Agg): return mk_int(len(v.f), 'usize'), lambda i: v.f[i], len(v.f)
+            return None
+        a, b = view(args[0]), view(args[1])
+        if a is None or b is None: return None
+        n = min(a[2], b[2])
+        e = zand(a[0].t == b[0].t, *[z3.Implies(i < a[0].t, a[1](i).t == b[1](i).t) for i in range(n)])
+        return bv_of(e if m.group(1) == 'eq' else znot(e)), T
+    m = re.match(r'^<&\[u8\] as TryInto<\[u8; (\d+)\]>>::try_into$', cs)
+    if m:
+        st = strv(args[0]); n = int(m.group(1))
+        if st is None: return None
+        ok = ex.cmp_iv('Eq', st.len, mk_int(n, 'usize'))
+        notok = mk_bool(not ok.c) if ok.c is not None else BV(z3.Not(ok.t))
+        return en2(notok, [Agg([byte_at(st, mk_int(i, 'usize')) for i in range(n)], 'array')], [Opaque('TryFromSliceError')], 'Result'), T
+    if cs == 'core::slice::<impl [u8]>::chunks_exact':
+        st = strv(args[0]); n = args[1].const()
+        if st is None or n is None: raise Inconclusive('chunks_exact with a symbolic chunk size')
+        if n == 0: ctx.panics.append((guard, site, 'chunk size must be non-zero')); return None, F
+        return ChunksV(st, n, mk_int(0, 'usize')), T
+    if re.match(r"^<ChunksExact<'_, u8> as IntoIterator>::into_iter$", cs): return ex.deref(args[0]), T
+    if re.match(r"^<ChunksExact<'_, u8> as Iterator>::zip$", cs):
+        b = ex.deref(args[1])
+        if isinstance(b, (StrV, StrLit)): b = SliceIterV(as_str(ex, b), mk_int(0, 'usize'))
+        return ZipV(ex.deref(args[0]), b), T
+    if re.match(r"^<Zip<ChunksExact<'_, u8>, std::slice::Iter<'_, u8>> as IntoIterator>::into_iter$", cs): return ex.deref(args[0]), T
+    def chunk_next(ch):
+        has = bv_of(z3.simplify(ch.pos.t + ch.n <= ch.s.len.t))
+        if has.c is None and ch.pos.lo + ch.n > ch.s.len.hi: has = mk_bool(False)
+        chunk = StrV(ch.s.buf, add_iv(ch.s.start, ch.pos), mk_int(ch.n, 'usize'))
+        if has.c is None:
+            npos = IV(z3.If(has.t, ch.pos.t + ch.n, ch.pos.t), 'usize', ch.pos.lo, min(ch.pos.hi + ch.n, len(ch.s.buf)))
+        else: npos = add_iv(ch.pos, mk_int(ch.n, 'usize')) if has.c else ch.pos
+        return has, chunk, ChunksV(ch.s, ch.n, npos)
+    if re.match(r"^<ChunksExact<'_, u8> as Iterator>::next$", cs):
+        r = args[0]; ch = ex.deref(r)
+        has, chunk, nxt = chunk_next(ch)
+        ex.write_ref(r, [], nxt)
+        return opt(has, [chunk]), T
+    if re.match(r"^<Zip<ChunksExact<'_, u8>, std::slice::Iter<'_, u8>> as Iterator>::next$", cs):
+        r = args[0]; z = ex.deref(r)
+        it = z.b
+        # (Zip of two TrustedRandomAccess iterators: neither side is advanced once the shorter one is exhausted)
+        has1 = bv_of(z3.simplify(z.a.pos.t + z.a.n <= z.a.s.len.t))
+        if has1.c is None and z.a.pos.lo + z.a.n > z.a.s.len.hi: has1 = mk_bool(False)
+        has2 = ex.cmp_iv('Lt', it.pos, it.s.len)
+        both = ex.binop('BitAnd', has1, has2)
+        chunk = StrV(z.a.s.buf, add_iv(z.a.s.start, z.a.pos), mk_int(z.a.n, 'usize'))
+        if both.c is False:
+            return opt(mk_bool(False), [Agg([chunk, cell(ex, mk_int(0, 'u8'))])]), T
+        b = byte_at(it.s, it.pos)
+        if both.c is True:
+            npa = add_iv(z.a.pos, mk_int(z.a.n, 'usize')); npb = add_iv(it.pos, mk_int(1, 'usize'))
+        else:
+            npa = IV(z3.If(both.t, z.a.pos.t + z.a.n, z.a.pos.t), 'usize', z.a.pos.lo, min(z.a.pos.hi + z.a.n, len(z.a.s.buf)))
+            npb = IV(z3.If(both.t, it.pos.t + 1, it.pos.t), 'usize', it.pos.lo, min(it.pos.hi + 1, len(it.s.buf)))
+        ex.write_ref(r, [], ZipV(ChunksV(z.a.s, z.a.n, npa), SliceIterV(it.s, npb)))
+        return opt(both, [Agg([chunk, cell(ex, b)])]), T
+    # ---- slices of structured values (views of a Vec with a concrete number of elements)
+    m = re.match(r'^core::slice::<impl \[.*\]>::(last|first|is_empty|len)$', cs)
+    if m:
+        v = ex.deref(args[0]); fn = m.group(1)
+        if isinstance(v, VecV) and v.clen() is None:
+            if fn == 'len': return v.n, T
+            if fn == 'is_empty': return bv_of(v.n.t == 0), T
+            hi = min(v.n.hi, len(v.items))
+            if hi == 0: return En(mk_int(0, 'isize'), {0: []}, 'Option'), T
+            if fn == 'first': val = v.items[0]
+            else:
+                val = v.items[hi - 1]
+                for k in range(hi - 2, -1, -1): val = merge(bv_of(v.n.t == k + 1), v.items[k], val)
+            if v.n.lo >= 1: return En(mk_int(1, 'isize'), {1: [cell(ex, val)]}, 'Option'), T
+            return En(IV(z3.If(v.n.t >= 1, 1, 0), 'isize', 0, 1), {0: [], 1: [cell(ex, val)]}, 'Option'), T
+        if isinstance(v, VecV): v = v.as_array()
+        if isinstance(v, Agg):
+            if fn == 'len': return mk_int(len(v.f), 'usize'), T
+            if fn == 'is_empty': return mk_bool(len(v.f) == 0), T
+            if not v.f: return En(mk_int(0, 'isize'), {0: []}, 'Option'), T
+            return En(mk_int(1, 'isize'), {1: [cell(ex, v.f[-1] if fn == 'last' else v.f[0])]}, 'Option'), T
+        return None
+    if re.match(r'^core::slice::<impl \[.*\]>::iter$', cs):
+        v = ex.deref(args[0])
+        if isinstance(v, VecV) and v.clen() is None: return VecIterV(v, mk_int(0, 'usize'), False), T
+        if isinstance(v, VecV):
+            from .sym import ArrIter
+            return ArrIter(v.as_array(), 0), T
+        return None
+    if re.match(r'^<std::slice::Iter<.*> as Iterator>::rev$', cs) and isinstance(ex.deref(args[0]), VecIterV):
+        it = ex.deref(args[0])
+        if it.k.const() != 0: raise Inconclusive('rev of a partly consumed iterator')
+        return VecIterV(it.v, it.k, not it.rev), T
+    if re.match(r'^<(Rev<)?std::slice::Iter<.*>>? as Iterator>::next$', cs) and isinstance(ex.deref(args[0]), VecIterV):
+        r = args[0]; it = ex.deref(r); v = it.v
+        has = ex.cmp_iv('Lt', it.k, v.n)
+        hi = min(v.n.hi, len(v.items))
+        if has.c is False or hi == 0: return opt(mk_bool(False), [cell(ex, v.items[0] if v.items else mk_int(0, 'u8'))]), T
+        idx = it.k.t if not it.rev else v.n.t - 1 - it.k.t
+        val = v.items[hi - 1]
+        for k in range(hi - 2, -1, -1): val = merge(bv_of(idx == k), v.items[k], val)
+        nk = add_iv(it.k, mk_int(1, 'usize')) if has.c is True else IV(z3.If(has.t, it.k.t + 1, it.k.t), 'usize', it.k.lo, min(it.k.hi + 1, hi))
+        ex.write_ref(r, [], VecIterV(v, nk, it.rev))
+        return opt(has, [cell(ex, val)]), T
+    if re.match(r'^<std::slice::Iter<.*> as Iterator>::rev$', cs):
+        it = ex.deref(args[0])
+        from .sym import ArrIter
+        if isinstance(it, ArrIter): return ArrIter(Agg(it.arr.f[it.idx:][::-1], 'array'), 0), T
+        return None
+    if re.match(r'^<Rev<std::slice::Iter<.*>> as (IntoIterator>::into_iter|Iterator>::next)$', cs):
+        from .sym import ArrIter
+        if cs.endswith('into_iter'): return ex.deref(args[0]), T
+        r = args[0]; it = ex.deref(r)
+        if isinstance(it, ArrIter):
+            if it.idx < len(it.arr.f):
+                ex.write_ref(r, [], ArrIter(it.arr, it.idx + 1))
+                return En(mk_int(1, 'isize'), {1: [cell(ex, it.arr.f[it.idx])]}, 'Option'), T
+            return En(mk_int(0, 'isize'), {0: []}, 'Option'), T
+        return None
+    if re.match(r'^<Vec<.*> as Index<RangeFull>>::index$', cs) or re.match(r'^<Vec<.*> as Index<std::ops::RangeFull>>::index$', cs):
+        v = ex.deref(args[0])
+        if isinstance(v, VecV): return v.as_array(), T
+        return None
+    m = re.match(r'^<\[.*\] as Index<usize>>::index$', cs)
+    if m:
+        v = ex.deref(args[0]); i = args[1]
+        if isinstance(v, VecV) and v.clen() is None:
+            val, okg = v.at(ctx, i, guard, site)
+            return (cell(ex, val) if val is not None else None), okg
+        if isinstance(v, VecV): v = v.as_array()
+        if isinstance(v, Agg):
+            n = len(v.f); okc = zand(i.t >= 0, i.t < n)
+            if not (i.lo >= 0 and i.hi < n): ctx.panics.append((zand(guard, znot(okc)), site, 'index out of bounds'))
+            if n == 0: return None, F
+            val = v.f[n - 1]
+            for k in range(n - 2, -1, -1): val = merge(bv_of(i.t == k), v.f[k], val)
+            return cell(ex, val), (T if (i.lo >= 0 and i.hi < n) else okc)
+        return None
+    # ---- Vec<T> with a concrete number of elements
+    m = re.match(r'^Vec::<.*>::(with_capacity|new)$', c)
+    if m: return VecV([]), T
+    m = re.match(r'^Vec::<.*>::push$', c)
+    if m:
+        r = args[0]; v = ex.deref(r)
+        if not isinstance(v, VecV): return None
+        ex.write_ref(r, [], v.pushed(args[1]))
+        return UNIT, T
+    m = re.match(r'^Vec::<.*>::(len|is_empty)$', c)
+    if m:
+        v = ex.deref(args[0])
+        if not isinstance(v, VecV): return None
+        if m.group(1) == 'len': return v.n, T
+        return (mk_bool(v.clen() == 0) if v.clen() is not None else bv_of(v.n.t == 0)), T
+    if re.match(r'^<Vec<.*> as Deref>::deref$', cs) or re.match(r'^Vec::<.*>::as_slice$', c):
+        v = ex.deref(args[0])
+        if isinstance(v, VecV): return v.as_array(), T
+        return None
+    m = re.match(r'^<Vec<.*> as Index<usize>>::index$', cs)
+    if m:
+        v = ex.deref(args[0]); i = args[1]
+        if not isinstance(v, VecV): return None
+        val, okg = v.at(ctx, i, guard, site)
+        return (cell(ex, val) if val is not None else None), okg
+    return None
+
 def index_project(ex, v, idx):
     """place projection v[idx] on a byte string"""
     st = as_str(ex, v)
@@ -287,7 +678,8 @@ def arg_hook(ex, nm, ty, dom, strlen):
     for i in range(L):
         v = z3.Int('a_%s_b%d' % (nm, i))
         lo_i, hi_i = bytedom.get(i, (0, hi))
-        buf.append(IV(v, 'u8', lo_i, hi_i)); cons += [v >= lo_i, v <= hi_i]; names.append(('__%s_b%d' % (nm, i), 'u8', v))
+        cons += [v >= lo_i, v <= hi_i]; names.append(('__%s_b%d' % (nm, i), 'u8', v))
+        buf.append(mk_int(lo_i, 'u8') if lo_i == hi_i else IV(v, 'u8', lo_i, hi_i))      # a fixed byte is a constant for the executor
     if ty == '&str' and not ascii_only:
         # valid UTF-8 made of ASCII and two-byte sequences: lead C2..DF followed by a continuation 80..BF
         for i in range(L):
